@@ -24,6 +24,7 @@ COMMON_ASSUMPTIONS = [
 ALL_CFGS = ["default", "release", "fromstr", "demo"]
 # property id -> (module, configs for quick, configs for thorough)
 PROPS = {
+    "C02": ("c02", ["default"], ALL_CFGS),
     "C04": ("c04", ["default"], ALL_CFGS),
     "C01": ("text", ["default"], ALL_CFGS),
     "C06": ("layout", ["default"], ALL_CFGS),
